@@ -56,6 +56,7 @@ type Check struct {
 	Entries     []Entry
 	Overrides   map[string]string
 	InitPkgs    []string
+	InitAllow   []string // non-repo packages whose initialisers may run
 	Assumptions []string
 	Bounds      string
 	Trusted     []string
@@ -267,6 +268,9 @@ func runEntries(ctx *RunCtx) error {
 		prog.Overrides[k] = v
 	}
 	prog.InitPkgs = ch.InitPkgs
+	for _, ip := range ch.InitAllow {
+		prog.InitAllow[ip] = true
+	}
 	ctx.Prog = prog
 	known := map[string]bool{}
 	for id := range ctx.Known {
